@@ -100,6 +100,25 @@ Verdict(t, e) ==
          ELSE IF Len(e.out.h) # o.n THEN "HeightLength"
          ELSE IF \E k \in 1..o.n : e.out.h[k] # Height(G, k) THEN "HeightOK"
          ELSE "ok"
+    [] e.fn = "height_graph" ->
+         \* height_dict / height_max / determine_n_emitters on a graph: out.h heights, out.hmax, out.ne
+         LET G == GraphState(e.n, {{ed[1], ed[2]} : ed \in {e.edges[k] : k \in DOMAIN e.edges}}) IN
+         IF e.out.err # "" THEN "Raised"
+         ELSE IF Len(e.out.h) # e.n THEN "HeightLength"
+         ELSE IF \E k \in 1..e.n : e.out.h[k] # Height(G, k) THEN "HeightGraphOK"
+         ELSE IF e.out.hmax # Max({Height(G, k) : k \in 1..e.n}) THEN "HeightMaxOK"
+         ELSE IF e.out.ne # Max({Height(G, k) : k \in 1..e.n}) THEN "EmitterCountOK"
+         ELSE "ok"
+    [] e.fn = "emitter_sorted" ->
+         \* graphs: sequence of edge lists (input order); out.order: indices into graphs as returned, out.ne: counts
+         LET H(k) == LET G == GraphState(e.n, {{ed[1], ed[2]} : ed \in {e.graphs[k][j] : j \in DOMAIN e.graphs[k]}})
+                     IN Max({Height(G, q) : q \in 1..e.n}) IN
+         IF e.out.err # "" THEN "Raised"
+         ELSE IF {e.out.order[j] : j \in DOMAIN e.out.order} # DOMAIN e.graphs \/ Len(e.out.order) # Len(e.graphs)
+              THEN "SortedIsPermutation"
+         ELSE IF \E j \in DOMAIN e.out.order : e.out.ne[j] # H(e.out.order[j]) THEN "SortedCountOK"
+         ELSE IF \E j \in 1..(Len(e.out.order) - 1) : e.out.ne[j] > e.out.ne[j + 1] THEN "SortedNonDecreasing"
+         ELSE "ok"
     [] OTHER -> "HarnessUnknownFn"
 
 Init == tid \in 1..Len(Traces) /\ l = 1 /\ why = "ok" /\ failed = FALSE
